@@ -498,11 +498,24 @@ def _check_metadata(pck, pf, keys, names, nd, L, maxmins, path, bad):
 
 
 def run_metadata_scenario(p, wd):
-    """C02: opening a plotfile exposes exactly the metadata its headers state."""
+    """C02: opening a plotfile exposes exactly the metadata its headers state - the headers as they are when it is opened:
+    with `rewrite_in_place` the directory is replaced by ANOTHER well-formed plotfile (same path, same field count, other
+    mesh / layout / values) and opened again in the same process."""
+    import shutil
+    fails, counter = [], [0]
+    _metadata_round(p, wd, fails, counter, "")
+    if p.get("rewrite_in_place"):
+        shutil.rmtree(os.path.join(wd, "plt"))
+        shutil.rmtree(os.path.join(wd, "plt_header_only"))
+        p2 = dict(p, seed=p["seed"] + 7919, nlevels=1 + p["nlevels"] % 3, nfiles=1 + p["nfiles"] % 3, time=p.get("time", 0.123) + 1.0,
+                  box_sizes=None if p.get("box_sizes") else [8, 16])
+        _metadata_round(p2, wd, fails, counter, " [same path, rewritten with another plotfile]")
+    return {"fails": fails[:20], "checks": counter[0]}
+
+
+def _metadata_round(p, wd, fails, counter, tag):
     import shutil
     from amr_kitchen import PlotfileCooker
-    fails = []
-    counter = [0]
     nd = p["ndims"]
     names = list(p["names"])
     n0 = tuple(p.get("n0") or ((16, 16, 8) if nd == 3 else (32, 16)))
@@ -510,6 +523,8 @@ def run_metadata_scenario(p, wd):
                      nlevels=p["nlevels"], nfiles=p["nfiles"], layout=p["layout"], seed=p["seed"], box=8,
                      box_sizes=tuple(p["box_sizes"]) if p.get("box_sizes") else None, time=p.get("time", 0.123),
                      ref_line_extra=p.get("ref_line_extra", 0), payload="random")
+    if p.get("version"):
+        pf.version = p["version"]
     path = os.path.join(wd, "plt")
     gen.write_plotfile(path, pf)
     # expected field keys: repeated names are renamed name_2, name_3, ...
@@ -524,7 +539,7 @@ def run_metadata_scenario(p, wd):
             keys.append(f"{nm}_{k}")
 
     def bad(what, detail=""):
-        fails.append({"what": what, "call": call, "detail": str(detail)[:200]})
+        fails.append({"what": what, "call": call + tag, "detail": str(detail)[:200]})
 
     for lim in [None] + list(range(pf.L + 1)):
         for maxmins in (False, True):
@@ -567,4 +582,4 @@ def run_metadata_scenario(p, wd):
             bad("header-only opening exposes different global metadata")
     except Exception as e:      # noqa
         bad("header-only opening needs more than the Header", f"{type(e).__name__}: {e}")
-    return {"fails": fails[:20], "checks": counter[0]}
+
